@@ -38,6 +38,7 @@ import (
 
 var (
 	errChunkNotSupported = errors.New("reading / writing chunk of piece not supported")
+	errInvalidPieceIndex = errors.New("invalid piece index")
 )
 
 // Events defines Dispatcher events.
@@ -516,7 +517,17 @@ func (d *Dispatcher) dispatch(p *peer, msg *conn.Message) error {
 	return nil
 }
 
+// validPiece returns whether i, as received from a remote peer, is a piece of
+// d's torrent.
+func (d *Dispatcher) validPiece(i int32) bool {
+	return i >= 0 && int(i) < d.torrent.NumPieces()
+}
+
 func (d *Dispatcher) handleError(p *peer, msg *p2p.ErrorMessage) {
+	if msg == nil {
+		d.log("peer", p).Error("Error message has no body")
+		return
+	}
 	switch msg.Code {
 	case p2p.ErrorMessage_PIECE_REQUEST_FAILED:
 		d.log().Errorf("Piece request failed: %s", msg.Error)
@@ -525,8 +536,12 @@ func (d *Dispatcher) handleError(p *peer, msg *p2p.ErrorMessage) {
 }
 
 func (d *Dispatcher) handleAnnouncePiece(p *peer, msg *p2p.AnnouncePieceMessage) {
-	if int(msg.Index) >= d.torrent.NumPieces() {
-		d.log().Errorf("Announce piece out of bounds: %d >= %d", msg.Index, d.torrent.NumPieces())
+	if msg == nil {
+		d.log("peer", p).Error("Announce piece message has no body")
+		return
+	}
+	if !d.validPiece(msg.Index) {
+		d.log().Errorf("Announce piece out of bounds: %d not in [0, %d)", msg.Index, d.torrent.NumPieces())
 		return
 	}
 	i := int(msg.Index)
@@ -543,9 +558,20 @@ func (d *Dispatcher) isFullPiece(i, offset, length int) bool {
 }
 
 func (d *Dispatcher) handlePieceRequest(p *peer, msg *p2p.PieceRequestMessage) {
+	if msg == nil {
+		d.log("peer", p).Error("Piece request message has no body")
+		return
+	}
 	p.pstats.incrementPieceRequestsReceived()
 
 	i := int(msg.Index)
+	if !d.validPiece(msg.Index) {
+		d.log("peer", p, "piece", i).Error("Rejecting piece request: invalid piece index")
+		if err := p.messages.Send(conn.NewErrorMessage(i, p2p.ErrorMessage_PIECE_REQUEST_FAILED, errInvalidPieceIndex)); err != nil {
+			d.log("peer", p, "piece", i).Errorf("Error sending error message: %s", err)
+		}
+		return
+	}
 	if !d.isFullPiece(i, int(msg.Offset), int(msg.Length)) {
 		d.log("peer", p, "piece", i).Error("Rejecting piece request: chunk not supported")
 		if err := p.messages.Send(conn.NewErrorMessage(i, p2p.ErrorMessage_PIECE_REQUEST_FAILED, errChunkNotSupported)); err != nil {
@@ -579,7 +605,16 @@ func (d *Dispatcher) handlePiecePayload(
 
 	defer closers.Close(payload)
 
+	if msg == nil {
+		d.log("peer", p).Error("Piece payload message has no body")
+		return
+	}
 	i := int(msg.Index)
+	if !d.validPiece(msg.Index) {
+		d.log("peer", p, "piece", i).Error("Rejecting piece payload: invalid piece index")
+		d.pieceRequestManager.MarkInvalid(p.id, i)
+		return
+	}
 	if !d.isFullPiece(i, int(msg.Offset), int(msg.Length)) {
 		d.log("peer", p, "piece", i).Error("Rejecting piece payload: chunk not supported")
 		d.pieceRequestManager.MarkInvalid(p.id, i)
